@@ -51,6 +51,11 @@ class expr_t::parser_t : public noncopyable
   mutable token_t lookahead;
   mutable bool    use_lookahead;
 
+  // Every parenthesized sub-expression recurses through the whole parsing
+  // ladder, so the nesting is bounded to keep the stack bounded
+  static const std::size_t MAX_NESTING_DEPTH = 256;
+  mutable std::size_t nesting_depth;
+
   token_t& next_token(std::istream& in, const parse_flags_t& tflags,
                       const optional<token_t::kind_t>& expecting = none) const {
     if (use_lookahead)
@@ -108,7 +113,7 @@ class expr_t::parser_t : public noncopyable
                             const parse_flags_t& flags) const;
 
 public:
-  parser_t() : use_lookahead(false) {
+  parser_t() : use_lookahead(false), nesting_depth(0) {
     TRACE_CTOR(parser_t, "");
   }
   ~parser_t() throw() {
